@@ -48,6 +48,9 @@ def scenarios() -> list[dict]:
         if name == "x" and (where == "inherited" or api.startswith("inj")):
             continue
         out.append({"order": order, "fkind": fkind, "req": req, "api": api, "handout": handout, "where": where, "name": name})
+        if name == "default" and where == "own":
+            # the callback takes the REQUESTED pair itself: the lookup then hands out what that pair resolves to
+            out.append({"order": order, "fkind": fkind, "req": req, "api": api, "handout": handout, "where": where, "name": name, "target": "same"})
     return out
 
 
@@ -57,6 +60,8 @@ async def run_scenario(sc: dict) -> list[tuple[str, str]]:
     T = {"A": RA, "B": RB}
     fails: list[tuple[str, str]] = []
     req, other = sc["req"], ("B" if sc["req"] == "A" else "A")
+    if sc.get("target") == "same":
+        return await run_same(sc)
     name = sc["name"]
     st: dict[str, Any] = {"calls": 0, "static": None, "handed": None, "add_exc": None}
     events: list = []
@@ -171,6 +176,98 @@ async def run_scenario(sc: dict) -> list[tuple[str, str]]:
                     tg.cancel_scope.cancel()
             if parent.get_resources(RA) or parent.get_resources(RB):
                 fails.append(("generated-scope", f"the parent context sees {parent.get_resources(RA)!r} / {parent.get_resources(RB)!r}"))
+    return fails
+
+
+async def run_same(sc: dict) -> list[tuple[str, str]]:
+    """the factory callback publishes a static resource under the very pair that is being looked up"""
+    from asphalt.core import Context, get_resource, get_resource_nowait, inject, resource
+
+    T = {"A": RA, "B": RB}
+    fails: list[tuple[str, str]] = []
+    req, other = sc["req"], ("B" if sc["req"] == "A" else "A")
+    name = sc["name"]
+    st: dict[str, Any] = {"calls": 0, "static": None}
+    box: dict = {}
+
+    def body() -> Any:
+        st["calls"] += 1
+        s = T[req](f"static-{req}")
+        box["ctx"].add_resource(s, name, types=T[req])
+        st["static"] = s
+        if sc["handout"]:
+            st["handed"] = box["ctx"].get_resource_nowait(T[req], name)
+        return RAB(f"generated#{st['calls']}")
+
+    if sc["fkind"] == "sync":
+        def factory() -> Any:
+            return body()
+    else:
+        async def factory() -> Any:  # type: ignore[misc]
+            return body()
+
+    @inject
+    def inj_sync_A(r: RA = resource()) -> Any:
+        return r
+
+    @inject
+    def inj_sync_B(r: RB = resource()) -> Any:
+        return r
+
+    @inject
+    async def inj_async_A(r: RA = resource()) -> Any:
+        return r
+
+    @inject
+    async def inj_async_B(r: RB = resource()) -> Any:
+        return r
+
+    async def lookup(ctx: Any, t: str, api: str) -> Any:
+        if api == "nowait":
+            return ctx.get_resource_nowait(T[t], name)
+        if api == "async":
+            return await ctx.get_resource(T[t], name)
+        if api == "shortcut":
+            return get_resource_nowait(T[t], name) if sc["fkind"] == "sync" else await get_resource(T[t], name)
+        if api == "inj_sync":
+            return (inj_sync_A if t == "A" else inj_sync_B)()
+        return await (inj_async_A if t == "A" else inj_async_B)()
+
+    async with Context() as ctx:
+        box["ctx"] = ctx
+        ctx.add_resource_factory(factory, name, types=[T[c] for c in sc["order"]])
+        got_events: list = []
+        started = anyio.Event()
+
+        async def listen() -> None:
+            async with ctx.resource_added.stream_events() as stream:
+                started.set()
+                async for ev in stream:
+                    got_events.append((tuple(t.__name__ for t in ev.resource_types), ev.resource_name, ev.is_factory))
+
+        async with anyio.create_task_group() as tg:
+            tg.start_soon(listen)
+            await started.wait()
+            try:
+                try:
+                    first = await lookup(ctx, req, sc["api"])
+                except BaseException as e:  # noqa: BLE001
+                    return [("reentrant", f"the generating lookup raised {e!r}")]
+                s = st["static"]
+                later = [await lookup(ctx, req, api) for api in ("nowait", "async")]
+                if any(x is not first for x in later):
+                    fails.append(("stable", f"the lookup of ({req}, {name!r}) returned {first!r}; later lookups of that pair return {later!r}"))
+                if any(x is not s for x in later):
+                    fails.append(("stable", f"({req}, {name!r}) was taken by {s!r} inside the factory callback but later lookups return {later!r}"))
+                g = await lookup(ctx, other, "async")
+                if not isinstance(g, RAB) or st["calls"] != 1:
+                    fails.append(("factory", f"({other}, {name!r}) resolves to {g!r} after {st['calls']} factory call(s); expected the one generated object"))
+                await anyio.wait_all_tasks_blocked()
+                exp_events = [((T[req].__name__,), name, False), ((T[other].__name__,), name, False)]
+                if got_events != exp_events:
+                    fails.append(("events", f"resource_added events {got_events!r}, expected {exp_events!r}"))
+            finally:
+                tg.cancel_scope.cancel()
     return fails
 
 
